@@ -32,7 +32,10 @@ const (
 )
 
 // Out is one thing to put on the wire.
+// Out.SplitAt > 0: a handshake message is written as two records cut at that offset (a legal fragmentation).
 type Out struct {
+	SplitAt      int
+	Hold         bool   // handshake bytes are hashed now but written together with the next handshake message (coalescing)
 	RecType      byte   // record type; RecHS payloads are handshake bytes
 	Data         []byte // payload (for RecHS: one or more complete or deliberately broken handshake messages)
 	NoTranscript bool   // do not add to the local transcript (the peer's view then differs from ours)
@@ -78,6 +81,7 @@ type Peer struct {
 	PeerCerts                  [][]byte
 	AppIn                      []byte
 	GotCloseNotify             bool
+	pending                    []byte // held handshake bytes awaiting the next handshake write
 	AlertIn                    *[2]byte
 }
 
@@ -148,6 +152,30 @@ func (p *Peer) send(step string, o Out) error {
 		}
 		if x.RecType == RecHS && !x.NoTranscript {
 			p.transcript = append(p.transcript, x.Data...)
+		}
+		if x.Hold && x.RecType == RecHS {
+			p.pending = append(p.pending, x.Data...)
+			continue
+		}
+		if len(p.pending) > 0 {
+			if x.RecType == RecHS {
+				x.Data = append(append([]byte{}, p.pending...), x.Data...)
+				if x.SplitAt > 0 {
+					x.SplitAt += len(p.pending)
+				}
+			} else if err := p.writeRecord(RecHS, p.pending); err != nil {
+				return err
+			}
+			p.pending = nil
+		}
+		if x.SplitAt > 0 && x.SplitAt < len(x.Data) {
+			if err := p.writeRecord(x.RecType, x.Data[:x.SplitAt]); err != nil {
+				return err
+			}
+			if err := p.writeRecord(x.RecType, x.Data[x.SplitAt:]); err != nil {
+				return err
+			}
+			continue
 		}
 		// fragment at 16384
 		data := x.Data
@@ -464,8 +492,10 @@ type ClientOpts struct {
 	CertD           *big.Int // its key; nil = the client cannot sign
 	CVSignD         *big.Int // key that signs CertificateVerify (default CertD)
 	OmitCertVerify  bool
+	ExtraCerts      [][]byte // further certificates appended to the client's Certificate message
 	Send            []byte
 	VersionOverride uint16
+	ForceVersion    bool // use VersionOverride even when it is 0
 	SessionTicket   []byte
 	SessionID       []byte
 	ResumeMaster    []byte // expected master when the server resumes
@@ -476,7 +506,7 @@ func (p *Peer) ClientHelloBytes(o ClientOpts) []byte {
 		p.ClientRandom = p.rnd(32)
 	}
 	v := Version
-	if o.VersionOverride != 0 {
+	if o.VersionOverride != 0 || o.ForceVersion {
 		v = o.VersionOverride
 	}
 	suites := o.Suites
@@ -607,7 +637,7 @@ func (p *Peer) RunClient(o ClientOpts) error {
 	if certRequested {
 		m := certMsg()
 		if sendsCert {
-			m = certMsg(o.Cert)
+			m = certMsg(append([][]byte{o.Cert}, o.ExtraCerts...)...)
 		}
 		if err := p.send("ClientCertificate", Out{RecType: RecHS, Data: m}); err != nil {
 			return err
